@@ -357,7 +357,14 @@ func (g *Gen) typeInv(term string, t types.Type) string {
 	case *types.Slice:
 		return fmt.Sprintf("(wfslice %s)", term)
 	case *types.Interface:
-		return fmt.Sprintf("(=> (= (i-tag %s) 0) (= (i-val %s) 0))", term, term)
+		inv := fmt.Sprintf("(=> (= (i-tag %s) 0) (= (i-val %s) 0))", term, term)
+		if types.Identical(t, tyErr) {
+			// modelling assumption (listed): error values never hold a typed-nil *SMTPError
+			if st, err := g.W.parseType("*SMTPError"); err == nil {
+				inv = fmt.Sprintf("(and %s (=> (= (i-tag %s) %s) (not (= (i-val %s) 0))))", inv, term, g.typeTag(st), term)
+			}
+		}
+		return inv
 	}
 	return "true"
 }
